@@ -575,7 +575,7 @@ func Replay(scenario string, raw json.RawMessage) []*mc.Violation {
 		return replayMulti(scenario, raw)
 	}
 	var in In
-	if err := json.Unmarshal(raw, &in); err != nil {
+	if err := mc.UnmarshalInput(raw, &in); err != nil {
 		return nil
 	}
 	if in.Orders {
